@@ -2,7 +2,9 @@ package dawn
 
 import (
 	"bytes"
+	"crypto/rand"
 	"encoding/base64"
+	"encoding/hex"
 	"errors"
 	"fmt"
 	"os"
@@ -252,7 +254,14 @@ func (f *function) evaluate() (data string, changed bool, err error) {
 	b64.Close()
 
 	f.oldEnv = f.newEnv
-	return buf.String(), true, nil
+
+	// Prefix the stamp with a fresh run ID so that every successful execution is visible to
+	// dependents as a change, including across partial builds and process restarts.
+	var runID [8]byte
+	if _, err := rand.Read(runID[:]); err != nil {
+		return "", false, err
+	}
+	return hex.EncodeToString(runID[:]) + ":" + buf.String(), true, nil
 }
 
 func (f *function) load() error {
@@ -273,10 +282,15 @@ func (f *function) load() error {
 		return fmt.Errorf("refreshing target info: %w", err)
 	}
 
-	if len(info.Data) == 0 {
+	// The stamp is an optional run ID, a colon, and the pickled environment.
+	stamp := info.Data
+	if colon := strings.IndexByte(stamp, ':'); colon != -1 {
+		stamp = stamp[colon+1:]
+	}
+	if len(stamp) == 0 {
 		f.oldEnv = starlark.None
 	} else {
-		b64 := base64.NewDecoder(base64.StdEncoding, strings.NewReader(info.Data))
+		b64 := base64.NewDecoder(base64.StdEncoding, strings.NewReader(stamp))
 		f.oldEnv, err = pickle.NewDecoder(b64, pickle.UnpicklerFunc(envUnpickler)).Decode()
 		if err != nil {
 			return fmt.Errorf("loading prior function environment: %w", err)
